@@ -111,13 +111,14 @@ Section NonBook.
   Hypothesis FR_bo : bo s1 = bo s.
   Hypothesis FR_ncb : ncb s1 = ncb s.
   Hypothesis FR_sv : sv s1 = sv s.
-  Hypothesis C_ctx : x_ctx m e = N.of_nat (kctx s1).
+  Hypothesis C_ctx : x_ctx m e p = N.of_nat (kctx s1).
   Hypothesis C_st : x_st m e p = sval s1.
   Hypothesis C_sfn : x_sfn m e = N.of_nat (sfn s1).
   Hypothesis C_clock : x_clock m e = clock s1.
   Hypothesis C_hasr : x_hasr m e p = has_routine s1.
   Hypothesis CLS : (keepA s s1 /\ x_epoch e p = false) \/ spawnB (length (insts s)) s1 \/ (freshC (length (insts s)) s1 /\ x_epoch e p = true).
-  Hypothesis CLR : x_clear_ctx e = true -> kctx s1 = 0%nat.
+  Hypothesis CLR : x_clear_ctx m e = true -> forall r, routine s1 = Some r -> rctx (getr s1 r) = None.
+  Hypothesis DEAD : match e with [18; c] => c :: m_dead m | _ => m_dead m end = map N.of_nat (dead s1).
   Hypothesis IREC : forall i x, nth_error (insts s) i = Some x -> exists x1, nth_error (insts s1) i = Some x1 /\ irec x1 = irec x.
   Hypothesis OUT : forall i x1, nth_error (insts s1) i = Some x1 -> out_ok (ipcv x1) (nth i (x_out m e p) 1).
   Hypothesis OUTL : length (x_out m e p) = length (insts s1).
@@ -179,7 +180,7 @@ Section NonBook.
     pose proof nb_bo as Ebo. pose proof nb_recorded as Erec. pose proof nb_rec_err as Eerr. pose proof nb_rec_ok as Eok.
     destruct nb_status as (S1 & S2 & S3).
     constructor; cbn [hs hch hlog hexitg hexit hfin m_sv m_ncb m_script m_idx m_ctx m_hasr m_sfn m_st m_clock m_ninst m_out m_chans
-                      m_succ m_err m_curexit m_pending m_quiet m_cur m_exitg m_pend m_wcanc x_state].
+                      m_succ m_err m_curexit m_pending m_quiet m_cur m_exitg m_pend m_wcanc m_dead x_state].
     - rewrite (q_sv _ _ Q), FR_sv. apply (R_sv _ _ HR).
     - rewrite (q_ncb _ _ Q), FR_ncb. apply (R_ncb _ _ HR).
     - rewrite (q_ncb _ _ Q), FR_ncb. apply (R_ncb1 _ _ HR).
@@ -216,7 +217,7 @@ Section NonBook.
       + rewrite (nb_spawned_keep K) in Hq. destruct (x_api e) eqn:Ea; [discriminate|]. destruct (QUIET eq_refl) as (Er & Hi1).
         destruct (Hi1 i x1 Hx1) as (x & Hx & Ir1). destruct K as (L & _). rewrite Ir1. unfold getr. rewrite Er.
         apply (R_quiet _ _ HR Hq i x); [lia | exact Hx].
-      + destruct B as (L & r & Hr & _ & Hc & _ & _ & _ & _ & _ & x0 & Hx0 & _ & Ir0 & _).
+      + destruct B as (L & r & Hr & _ & Hc & _ & _ & _ & _ & _ & x0 & Hx0 & _ & Ir0).
         assert (i = length (insts s)) by lia. subst i. assert (x1 = x0) by congruence. subst x1. now rewrite Ir0.
       + rewrite (nb_spawned_fresh C) in Hq. destruct (x_api e) eqn:Ea; [discriminate|]. destruct (QUIET eq_refl) as (Er & Hi1).
         destruct (Hi1 i x1 Hx1) as (x & Hx & Ir1). destruct C as (L & _). rewrite Ir1. unfold getr. rewrite Er.
@@ -224,11 +225,8 @@ Section NonBook.
     - (* cur1 *)
       intros r i Hr Hc. rewrite (q_routine _ _ Q) in Hr. rewrite (getr_quiet _ _ _ Q) in Hc. unfold x_cur.
       destruct CLS as [[K Ee] | [B | [C Ee]]].
-      + rewrite (nb_spawned_keep K), Ee. cbn [orb]. destruct (x_clear_ctx e) eqn:Ecl.
-        * exfalso. destruct HA' as (_ & _ & _ & (CK' & _)). destruct (CK' r i) as [Hk _].
-          -- now rewrite (q_routine _ _ Q).
-          -- now rewrite (getr_quiet _ _ _ Q).
-          -- apply Hk. rewrite (q_kctx _ _ Q). now apply CLR.
+      + rewrite (nb_spawned_keep K), Ee. cbn [orb]. destruct (x_clear_ctx m e) eqn:Ecl.
+        * exfalso. rewrite (CLR eq_refl r Hr) in Hc. discriminate.
         * destruct K as (_ & Rr & K). rewrite Rr in Hr. destruct (K r Hr) as (_ & _ & _ & [E|E] & _); [|congruence].
           apply (R_cur1 _ _ HR r i Hr). congruence.
       + rewrite (nb_spawned_spawn B). destruct B as (L & r0 & Hr0 & _ & Hc0 & _). assert (r0 = r) by congruence. subst r0.
@@ -237,17 +235,18 @@ Section NonBook.
     - (* cur2 *)
       intros i Hi. unfold x_cur in Hi. rewrite (q_routine _ _ Q).
       destruct CLS as [[K Ee] | [B | [C Ee]]].
-      + rewrite (nb_spawned_keep K), Ee in Hi. cbn [orb] in Hi. destruct (x_clear_ctx e); [discriminate|].
+      + rewrite (nb_spawned_keep K), Ee in Hi. cbn [orb] in Hi. destruct (x_clear_ctx m e); [discriminate|].
         destruct (R_cur2 _ _ HR i Hi) as (x & Hx & Hr). destruct (IREC i x Hx) as (x1 & Hx1 & Ir1).
         destruct (quiet_inst_fwd _ _ i x1 Q Hx1) as (x' & Hx' & Ir' & _). exists x'. split; [exact Hx'|].
         destruct K as (_ & Rr & _). rewrite Rr, Ir', Ir1. exact Hr.
-      + rewrite (nb_spawned_spawn B) in Hi. destruct B as (L & r & Hr & _ & _ & _ & _ & _ & _ & _ & x0 & Hx0 & _ & Ir0 & _).
+      + rewrite (nb_spawned_spawn B) in Hi. destruct B as (L & r & Hr & _ & _ & _ & _ & _ & _ & _ & x0 & Hx0 & _ & Ir0).
         unfold x_newest in Hi. rewrite x_n_obs, (q_ilen _ _ Q), L in Hi. assert (Hi' : i = length (insts s)) by (inversion Hi; lia). subst i.
         destruct (quiet_inst_fwd _ _ _ x0 Q Hx0) as (x' & Hx' & Ir' & _). exists x'. split; [exact Hx'|]. now rewrite Ir', Ir0.
       + rewrite (nb_spawned_fresh C), Ee in Hi. discriminate.
     - exact NBp.
     - rewrite WC. symmetry. apply map_wcanc_quiet. exact Q.
     - reflexivity.
+    - rewrite (q_dead _ _ Q). exact DEAD.
   Qed.
 
   (* the clauses of this step *)
